@@ -176,6 +176,7 @@ package fans
 //@   ensures supportsResult == old(supportsResult)[feature := result]
 //@   requires fileWF(fan)
 //@   ensures feature == FeatureControlMode ==> !result
+//@   ensures[C10.rpmfeature] feature == FeatureRpmSensor ==> result == (len(fan.Config.File.RpmPath) > 0)
 //@   modifies lastReadFailed, supportsResult
 
 // ======================================= CmdFan =====================================================
